@@ -142,7 +142,7 @@ def run_round(sx, shape):
         raise KeyError(shape)
     sx.reach("round")
     ops = s.operations
-    core, shell = list(s.core) if hasattr(s, "core") and shape != "ExtrudedRing" else [], list(s.shell)
+    core, shell = list(s.core), list(s.shell)        # (a ring has no core: the list must be empty, not missing or the shell)
     sx.prove(len(core) + len(shell) == len(ops) and not ({id(o) for o in core} & {id(o) for o in shell})
              and {id(o) for o in core} | {id(o) for o in shell} == {id(o) for o in ops},
              f"{shape}: core and shell partition the operations", f"C19:core-shell:partition:{shape}",
